@@ -239,6 +239,23 @@ pub fn check_refcount_cap(rows: u32) -> Check {
     check_file(&buf.bytes(), &snap, true).map(|_| ()).map_err(|(k, d)| fail(&k, &d, "flush", &format!("{rows} rows referring to one string twice every other row")))
 }
 
+/// A creation that runs out of pool entries part-way (the names fit, the
+/// `_Validation` strings do not, or the other way round): whatever it
+/// returns, the saved file must be consistent with what the API reports.
+pub fn check_near_full_pool(room: u32) -> Check {
+    use msi::{Column, Package};
+    let bytes = crate::props::c20::file_with_pool(65_535 - room)?;
+    let buf = crate::media::SharedBuf::new(bytes);
+    let e = |what: &str, e: std::io::Error| Fail::new(format!("{P} unexpected-error op={what}"), e.to_string());
+    let mut pkg = Package::open(buf.clone()).map_err(|x| e("open", x))?;
+    let r = pkg.create_table("Extra", vec![Column::build("FirstNewName").primary_key().int16(), Column::build("SecondNewName").nullable().enum_values(&["A", "B"]).string(8)]);
+    pkg.flush().map_err(|x| e("flush", x))?;
+    let snap = crate::observe::observe(&mut pkg).map_err(|x| Fail::new(format!("{P} observer-inconsistent"), x))?;
+    check_file(&buf.bytes(), &snap, true)
+        .map(|_| ())
+        .map_err(|(k, d)| fail(&k, &d, "flush", &format!("a pool with room for {room} more strings; create_table(Extra) needing 4 returned {}", if r.is_ok() { "Ok" } else { "Err" })))
+}
+
 pub fn run(ctx: &Ctx) -> Report {
     let mut rep = Report::new(
         "exploration",
@@ -273,6 +290,16 @@ pub fn run(ctx: &Ctx) -> Report {
             }
         }
     }
+    for room in 0..=5u32 {
+        st.eval();
+        st.class("near-full-pool");
+        if let Err(f) = check_near_full_pool(room) {
+            if !ctx.is_known(&f.sig) {
+                rep.violations.push(crate::engine::Violation { sig: f.sig, detail: f.detail, case: json!({"kind": "nearfull", "case": room}) });
+                break;
+            }
+        }
+    }
     rep.stats = st;
     rep
 }
@@ -285,6 +312,7 @@ pub fn replay(_ctx: &Ctx, doc: &J) -> Check {
         "seq" => check_seq(&serde_json::from_value::<SeqCase>(doc["case"].clone()).map_err(bad)?, &mut st),
         "prefixes" => check_prefixes(&serde_json::from_value::<SeqCase>(doc["case"].clone()).map_err(bad)?, &mut st),
         "cap" => check_refcount_cap(doc["case"].as_u64().unwrap_or(0) as u32),
+        "nearfull" => check_near_full_pool(doc["case"].as_u64().unwrap_or(0) as u32),
         _ => Err(Fail::new(format!("{P} bad-replay"), format!("unknown case kind {kind:?}"))),
     }
 }
